@@ -84,6 +84,13 @@ CHECKS = [
              'uniform-size / hand-drawn intra-sector slicings of contracted and output labels equals ncon and the dense einsum exactly.',
      'note': 'trusted: integer exactness; to_numpy as observer; random paths are restricted to connected pairs (outer-product-first paths '
              'cannot be expressed through ncon labels); one open known finding (empty constant sub-network)'},
+    {'id': 'C15',
+     'technique': 'Hypothesis-generated programs over the public operation catalogue with byte-level snapshots of every live object before and after every call; mutation of copies/sources through the in-place API',
+     'text': 'Programs over the tensor catalogue (algebra, fusion, factorisations, block, constructors, masks, swap gates + 30 observer/'
+             'utility calls) snapshot every pool tensor (to_dict(level=2) + raw data bytes) before and after each call, also when it raises; '
+             'copy/clone/from_dict/split-combine results stay unchanged when the source is modified through set_block / item assignment '
+             '(and vice versa), shallow views keep their own structure. MPS/MPO and PEPS objects are covered by the mps/peps parts.',
+     'note': 'trusted: to_dict(level=2) and .data as the snapshot; numpy.shares_memory for the non-triviality label'},
     {'id': 'C16',
      'technique': 'Hypothesis-generated interleaved histories of twin programs with cache operations; differential run against undecorated functions plus a per-call audit wrapper (recomputation and insertion digests)',
      'text': 'The same operation sequence is re-created block by block under 2-3 symmetry groups / fermionic flags (identical struct and slices) '
